@@ -172,7 +172,7 @@ def c09 (T : Table) (args : List String) : String :=
     match slotOf s, kindOf k with
     | some s, some k => if T s k then "wrapped" else "bare"
     | _, _ => "bad-op"
-  | ["rt", t] | ["mv", t] =>
+  | ["rt", t] =>
     match decodeTree t with
     | some n =>
       let ts := pr T n
@@ -181,6 +181,26 @@ def c09 (T : Table) (args : List String) : String :=
         | some (m, []) => nodeEq m n
         | _ => false
       toks ++ "|" ++ (if same then "same" else "diff")
+    | none => "bad-op"
+  | _ => "bad-op"
+
+/-- `c16 mv <tree>`: the tree is first displayed and re-parsed (that is what the engine holds in
+    the cell), then printed by the cut/paste printer `Tm` and parsed again -/
+def c16 (Ts Tm : Table) (args : List String) : String :=
+  match args with
+  | ["entry", s, k, t] => c09 Tm ["entry", s, k, t]
+  | ["mv", t] =>
+    match decodeTree t with
+    | some n =>
+      match parse isVarIdx (pr Ts n) with
+      | some (n0, []) =>
+        let ts := pr Tm n0
+        let toks := ",".intercalate (ts.map tokName)
+        let same := match parse isVarIdx ts with
+          | some (m, []) => nodeEq m n0
+          | _ => false
+        toks ++ "|" ++ (if same then "same" else "diff")
+      | _ => "display-does-not-parse"
     | none => "bad-op"
   | _ => "bad-op"
 
